@@ -31,7 +31,8 @@ CONSTANTS Objs, Vals, NONE,
           ETChoices,        \* set of executeHookOnEvent values (subsets of {"A","M","D"})
           MaxChanges, MaxResync, MaxOtherReads, MaxSyncFail,
           Others,           \* ids of the other readers
-          FixF1, FixF2      \* TRUE: the code after the fix commits
+          FixF1, FixF2,     \* TRUE: the code after the fix commits
+          FixF3             \* TRUE: readers only read; the Synchronization run drops the saved events BEFORE it reads
 
 VARIABLES cluster, nchg, nres, watchQ,
           cache, buf, enabled, ch,
@@ -160,7 +161,7 @@ ResetCauses(r, at) ==
 
 \* FixF1: copy and reset under eventBufLock
 GC_CopyReset(r) ==
-  /\ FixF1 /\ rpc[r] = "want" /\ BufFree
+  /\ FixF1 /\ ~FixF3 /\ rpc[r] = "want" /\ BufFree
   /\ rcopy' = [rcopy EXCEPT ![r] = [c |-> cache, at |-> ndec]]
   /\ IF enabled THEN UNCHANGED <<buf, cause>>
      ELSE /\ buf' = <<>> /\ cause' = cause \cup ResetCauses(r, ndec)
@@ -168,6 +169,25 @@ GC_CopyReset(r) ==
   /\ act' = <<"GC_CopyReset", r>>
   /\ UNCHANGED <<cluster, nchg, nres, watchQ, cache, enabled, ch, hpc, hev, hflag, nreads, syncSt, syncView, syncFails,
                  epc, eidx, delivered, decided, ndec, copyAt, early>>
+
+\* FixF3 (taskHandleHookRun + dropSavedEvents / getCachedObjects): the Synchronization run drops what was saved so far under
+\* eventBufLock and reads the cache afterwards; an event saved in between is in the view AND is replayed later (told twice,
+\* never lost). Every other reader only reads the cache (cacheLock only).
+GC_Drop(r) ==
+  /\ FixF3 /\ r = SyncReader /\ rpc[r] = "want" /\ BufFree
+  /\ buf' = IF enabled THEN buf ELSE <<>>
+  /\ rpc' = [rpc EXCEPT ![r] = "copy"]
+  /\ act' = <<"GC_Drop", r>>
+  /\ UNCHANGED <<cluster, nchg, nres, watchQ, cache, enabled, ch, hpc, hev, hflag, rcopy, nreads, syncSt, syncView, syncFails,
+                 epc, eidx, delivered, decided, ndec, copyAt, cause, early>>
+
+GC_CopyOnly(r) ==
+  /\ FixF3 /\ rpc[r] = (IF r = SyncReader THEN "copy" ELSE "want")
+  /\ rcopy' = [rcopy EXCEPT ![r] = [c |-> cache, at |-> ndec]]
+  /\ rpc' = [rpc EXCEPT ![r] = "done"]
+  /\ act' = <<"GC_CopyOnly", r>>
+  /\ UNCHANGED <<cluster, nchg, nres, watchQ, cache, buf, enabled, ch, hpc, hev, hflag, nreads, syncSt, syncView, syncFails,
+                 epc, eidx, delivered, decided, ndec, copyAt, cause, early>>
 
 GC_Copy(r) ==
   /\ ~FixF1 /\ rpc[r] = "want"
@@ -251,14 +271,14 @@ CoreNext ==
   \/ \E o \in Objs, v \in Vals \cup {NONE} : Change(o, v)
   \/ \E o \in Objs : Resync(o)
   \/ HW_UpdateCache \/ HW_NoFire \/ HW_Decide \/ HW_ReadFlag \/ HW_Append \/ HW_Put
-  \/ \E r \in Readers : GC_CopyReset(r) \/ GC_Copy(r) \/ GC_Reset(r) \/ OtherRead(r)
+  \/ \E r \in Readers : GC_CopyReset(r) \/ GC_Copy(r) \/ GC_Reset(r) \/ OtherRead(r) \/ GC_Drop(r) \/ GC_CopyOnly(r)
   \/ SYNC_Start \/ SYNC_HookRuns \/ \E ok \in BOOLEAN : SYNC_HookDone(ok)
   \/ EN_Begin \/ EN_Put \/ Consume
 
 Next == CoreNext /\ UNCHANGED cfgv
 Spec == Init /\ [][Next]_vars
 FairSpec == Spec /\ WF_vars(HW_UpdateCache \/ HW_NoFire \/ HW_Decide \/ HW_ReadFlag \/ HW_Append \/ HW_Put)
-                 /\ WF_vars(\E r \in Readers : GC_CopyReset(r) \/ GC_Copy(r) \/ GC_Reset(r))
+                 /\ WF_vars(\E r \in Readers : GC_CopyReset(r) \/ GC_Copy(r) \/ GC_Reset(r) \/ GC_Drop(r) \/ GC_CopyOnly(r))
                  /\ WF_vars(SYNC_Start \/ SYNC_HookRuns \/ SYNC_HookDone(TRUE)) /\ WF_vars(EN_Begin \/ EN_Put) /\ WF_vars(Consume)
 
 (* simulation: one action per kind, so that the simulator's uniform choice among actions is not drowned by Change *)
@@ -267,7 +287,7 @@ SimCore ==
   \/ \E o \in S(Objs), v \in S(Vals \cup {NONE}) : Change(o, v)
   \/ \E o \in S(Objs) : Resync(o)
   \/ HW_UpdateCache \/ HW_NoFire \/ HW_Decide \/ HW_ReadFlag \/ HW_Append \/ HW_Put
-  \/ \E r \in S(Readers) : GC_CopyReset(r) \/ GC_Copy(r) \/ GC_Reset(r)
+  \/ \E r \in S(Readers) : GC_CopyReset(r) \/ GC_Copy(r) \/ GC_Reset(r) \/ GC_Drop(r) \/ GC_CopyOnly(r)
   \/ \E r \in S(Others) : OtherRead(r)
   \/ SYNC_Start \/ SYNC_HookRuns \/ \E ok \in S(BOOLEAN) : SYNC_HookDone(ok)
   \/ EN_Begin \/ EN_Put \/ Consume
